@@ -189,12 +189,26 @@ func runGrammar(c *ShardCtx, g *peg.Grammar, f *family) {
 					// every 5th case, and never for runs that did not return
 					c.Res.warmSeen++
 					if c.Res.warmSeen%5 == 0 && !obs.Diverged && len(obs.Pool) == 0 {
-						o2 := o
-						obs2 := b.RunWarm(in, &o2, script)
-						c.Res.Counters["second_call_runs"]++
-						if k1, k2 := warmKey(obs), warmKey(obs2); k1 != k2 {
-							c.Report(Violation{Desc: "a second identical Parse call in the same process returns something else: " + k2 + " (first call: " + k1 + ")", Grammar: text, Gen: gen.String(), Input: string(in),
-								InputHex: hexOf(in), Opts: optsString(&o) + " " + scriptString(script) + " (called twice)"}, "")
+						if c.Res.warmSeen%10 == 0 && len(f.inputs) > 1 {
+							// ... and a call on ANOTHER input with the same option VALUES (a caller keeping
+							// opts := []Option{...} for a corpus) returns what that input returns alone
+							in2 := f.inputs[(ii+1)%len(f.inputs)]
+							o2, o3 := o, o
+							warm := b.RunWarmReuse(in2, &o2, script)
+							alone := b.Run(in2, &o3, script)
+							c.Res.Counters["second_call_runs"]++
+							if k1, k2 := warmKey(alone), warmKey(warm); k1 != k2 && !alone.Diverged && !warm.Diverged {
+								c.Report(Violation{Desc: fmt.Sprintf("a Parse call made after a call on the input %q with the same option values returns something else: %s (alone: %s)", in, k2, k1), Grammar: text, Gen: gen.String(), Input: string(in2),
+									InputHex: hexOf(in2), Opts: optsString(&o) + " " + scriptString(script) + " (option values of the previous call passed again)"}, "")
+							}
+						} else {
+							o2 := o
+							obs2 := b.RunWarm(in, &o2, script)
+							c.Res.Counters["second_call_runs"]++
+							if k1, k2 := warmKey(obs), warmKey(obs2); k1 != k2 {
+								c.Report(Violation{Desc: "a second identical Parse call in the same process returns something else: " + k2 + " (first call: " + k1 + ")", Grammar: text, Gen: gen.String(), Input: string(in),
+									InputHex: hexOf(in), Opts: optsString(&o) + " " + scriptString(script) + " (called twice)"}, "")
+							}
 						}
 					}
 					co := f.cmp
